@@ -137,10 +137,88 @@ fn convert(t: OwnedTerm, chain: &[u8]) -> OwnedTerm {
 }
 
 pub fn run(ctx: &Ctx) {
-    ctx.rule("cases = identifier (pid/port/ref; node names 1..255 bytes, 32/64-bit numbers, 1..5 words) x form (modern plain / LOCAL_EXT with random 8-byte hash and any admissible inner tag) x 9 term contexts x conversion chain of length 0..6 over {clone, to-borrowed-and-back, move, box}; distinct = distinct (kind, form, context, chain) combinations");
+    ctx.rule("cases = identifier (pid/port/ref; node names 1..255 bytes, 32/64-bit numbers, 1..5 words) x form (modern plain / LOCAL_EXT with random 8-byte hash and any admissible inner tag) x 9 term contexts x conversion chain of length 0..6 over {clone, to-borrowed-and-back, move, box}; plus every ordered pair of sibling identifiers (one field or one trailing reference word apart) in all four form combinations as the two keys of one map; distinct = distinct (kind, form, context, chain) combinations");
     ctx.assume("LOCAL_EXT layout = tag, 8 hash bytes, one tag-led term (the library's documented reading)");
     let mut rng = Rng::derive(ctx.seed, 10, 1);
     let cfg = GenCfg::default();
+    // sibling identifiers (one field / one trailing word apart) side by side as the keys of one map: both must
+    // survive decoding, conversions and re-encoding, each in the form it arrived in
+    {
+        let mut frng = Rng::derive(ctx.seed, 10, 2);
+        let fams = crate::genr::near::families(&mut frng);
+        let mut pairs = 0u64;
+        for fam in fams.iter().filter(|f| f.name.starts_with("id:")) {
+            let m = &fam.members;
+            for i in 0..m.len() {
+                for j in 0..m.len() {
+                    if i == j {
+                        continue;
+                    }
+                    for (fa, fb) in [(Form::Plain, Form::Plain), (Form::Local, Form::Local), (Form::Plain, Form::Local), (Form::Local, Form::Plain)] {
+                        let (a, b) = (id_bytes(&m[i], fa, &mut rng), id_bytes(&m[j], fb, &mut rng));
+                        let map_of = |x: &[u8], y: &[u8], wrap: bool| {
+                            let mut o = vec![131u8, 116, 0, 0, 0, 2];
+                            for (k, v) in [(x, 1u8), (y, 2u8)] {
+                                if wrap {
+                                    o.extend_from_slice(&[104, 2, 119, 1, b'k']);
+                                }
+                                o.extend_from_slice(k);
+                                o.extend_from_slice(&[97, v]);
+                            }
+                            o
+                        };
+                        for wrap in [false, true] {
+                            let bytes = map_of(&a, &b, wrap);
+                            // the library writes map entries in its own key order: either order of the two entries is "identical"
+                            let mut swapped = vec![131u8, 116, 0, 0, 0, 2];
+                            for (k, v) in [(&b, 2u8), (&a, 1u8)] {
+                                if wrap {
+                                    swapped.extend_from_slice(&[104, 2, 119, 1, b'k']);
+                                }
+                                swapped.extend_from_slice(k);
+                                swapped.extend_from_slice(&[97, v]);
+                            }
+                            let chain: Vec<u8> = (0..rng.below(4)).map(|_| rng.below(6) as u8).collect();
+                            ctx.eval(1);
+                            pairs += 1;
+                            ctx.class(&format!("siblings/{}/{:?}{:?}/{}", fam.name, fa, fb, wrap));
+                            let wit = |d: serde_json::Value| json!({"a": m[i].show(), "b": m[j].show(), "forms": format!("{:?}/{:?}", fa, fb), "chain": chain, "bytes": hex_cap(&bytes, 200), "detail": d});
+                            match guarded(|| erltf::decode(&bytes).map(|t| erltf::encode(&convert(t, &chain)))) {
+                                Ok(Ok(Ok(again))) => {
+                                    if again != bytes && again != swapped {
+                                        ctx.viol(
+                                            &format!("C10:sibling-keys:bytes-differ:{}", fam.name),
+                                            "two distinct identifiers used as keys of one map are not both re-emitted byte-for-byte",
+                                            wit(json!({"again": hex_cap(&again, 200)})),
+                                        );
+                                    }
+                                }
+                                Ok(Ok(Err(e))) => ctx.viol("C10:encode-error", "re-encoding failed", wit(json!({"error": e.to_string()}))),
+                                Ok(Err(e)) => ctx.viol(&format!("C10:sibling-keys:decode-error:{}", fam.name), "a map keyed by two identifiers is rejected", wit(json!({"error": e.to_string()}))),
+                                Err(p) => ctx.viol("C10:panic:sibling-keys", "panic", wit(json!({"panic": p}))),
+                            }
+                        }
+                        // distinct identifiers are told apart by ==, cmp and hashed/ordered sets, whatever their forms
+                        let (ta, tb) = (erltf::decode(&in_context(0, &a, &[])), erltf::decode(&in_context(0, &b, &[])));
+                        if let (Ok(ta), Ok(tb)) = (ta, tb) {
+                            let bt: std::collections::BTreeSet<OwnedTerm> = [ta.clone(), tb.clone()].into_iter().collect();
+                            let hs: std::collections::HashSet<OwnedTerm> = [ta.clone(), tb.clone()].into_iter().collect();
+                            let borrowed_equal = BorrowedTerm::from(&ta).cmp(&BorrowedTerm::from(&tb)) == std::cmp::Ordering::Equal;
+                            if ta == tb || ta.cmp(&tb) == std::cmp::Ordering::Equal || borrowed_equal || bt.len() != 2 || hs.len() != 2 {
+                                ctx.viol(
+                                    &format!("C10:different-ids-identified:{}", fam.name),
+                                    "identifiers that differ in a logical field compare equal",
+                                    json!({"a": m[i].show(), "b": m[j].show(), "eq": ta == tb, "cmp": format!("{:?}", ta.cmp(&tb)), "borrowed_cmp_equal": borrowed_equal, "btreeset": bt.len(), "hashset": hs.len()}),
+                                );
+                            }
+                        }
+                    }
+                }
+            }
+        }
+        ctx.extra("sibling_identifier_cases", json!(pairs));
+    }
+
     let n = ctx.pick(30_000usize, 2_000_000usize);
     for case in 0..n {
         if !ctx.time_left() {
